@@ -614,6 +614,13 @@ def reads(t, row, params, draws=None, rows=None):
     return set(ctx.reads)
 
 
+def _perturb(v, s):
+    """Relative perturbation by 1e-13; integer-valued inputs (keys, choices, 0/1 indicators, identifiers) are exact data
+    and are left alone - perturbing them would change which branch / key is taken, which is not a conditioning question."""
+    v = float(v)
+    return v if v.is_integer() else v * (1.0 + 1e-13 * s)
+
+
 def ill_conditioned(t, row, params, draws=None, rows=None, base=None):
     """Rule (c): re-evaluate with inputs perturbed by 1e-13 relative; True when the value moves by
     more than 1e-10 relative (catastrophic cancellation)."""
@@ -623,15 +630,15 @@ def ill_conditioned(t, row, params, draws=None, rows=None, base=None):
         s = 1.0
         row2 = {}
         for kx, v in (row or {}).items():
-            row2[kx] = v * (1.0 + 1e-13 * s)
+            row2[kx] = _perturb(v, s)
             s = -s
         par2 = {}
         for kx, v in (params or {}).items():
-            par2[kx] = v * (1.0 + 1e-13 * s)
+            par2[kx] = _perturb(v, s)
             s = -s
         rows2 = None
         if rows is not None:
-            rows2 = [{kx: v * (1.0 + 1e-13) for kx, v in r.items()} for r in rows]
+            rows2 = [{kx: _perturb(v, 1.0) for kx, v in r.items()} for r in rows]
         other = evaluate(t, row2, par2, draws, rows2, strict=False)
     except (OutOfDomain, Fragile):
         return True
